@@ -759,6 +759,33 @@ fn check_sem_case(ctx: &mut Ctx, w: &World, g: &Gen, q: &Q, text: &str) {
     }
 }
 
+/// the Lean printer of `C16_print_parse_operands`: operand lists of plain words printed by the
+/// model with random layout; the real parsers and the Lean parsers are compared on that text
+fn check_lean_printed(ctx: &mut Ctx, w: &World) {
+    let mut rng = ctx.rng.fork();
+    const VOC: &[&str] = &["a", "b", "abc", "x1", "ANDROID", "ORx", "NOTE", "INDIA", "IN2", "AN", "O", "NO", "42", "Zed", "andor"];
+    let occ = |rng: &mut Rng| *rng.pick(&["-", "-", "m", "x", "s"]);
+    let hexw = |s: &str| crate::model::hex(s.as_bytes());
+    let n = rng.usize_below(6);
+    let items: Vec<String> = (0..n)
+        .map(|_| format!("{},{},{},{},{}", rng.pick(&["-", "a", "o"]), occ(&mut rng), hexw(*rng.pick(VOC)), rng.below(3), rng.below(3)))
+        .collect();
+    let req = format!("C16 printl {} {} {} {} {}", rng.below(3), occ(&mut rng), hexw(*rng.pick(VOC)), rng.below(3), if items.is_empty() { "-".to_string() } else { items.join(";") });
+    let resp = ctx.model.ask(&req);
+    let text = match crate::model::unhex(&resp).and_then(|b| String::from_utf8(b).ok()) {
+        Some(t) => t,
+        None => {
+            ctx.report.violation("model", "C16:model-rejects-request", format!("model rejects {req}: {resp}"), json!({"kind": "printl", "req": req}));
+            return;
+        }
+    };
+    ctx.report.case(&format!("lean-printed|{text}"), n >= 1);
+    if parse_query(&text).is_err() {
+        ctx.report.violation("model", "C16:lean-printed-text-rejected", format!("the strict parser rejects the text printed by the Lean printer: {text:?}"), json!({"kind": "string", "text": text, "origin": "lean-printed"}));
+    }
+    check_string(ctx, w, &text, "lean-printed");
+}
+
 /// offsets `(n, Term(` of the phrase terms in the Debug text of a compiled query
 fn debug_offsets(dbg: &str) -> Vec<u64> {
     let mut out = vec![];
@@ -1043,6 +1070,13 @@ pub fn run(ctx: &mut Ctx) {
             let text = g.print(&mut ctx.rng.fork(), &q, true);
             ctx.report.count("sem:stop-word-phrase-corpus");
             check_sem_case(ctx, &w3, &g, &q, &text);
+        }
+    }
+
+    // texts printed by the Lean printer (the printer of C16_print_parse_operands)
+    if on("b") {
+        for _ in 0..ctx.budget(400, 20_000) {
+            check_lean_printed(ctx, &w);
         }
     }
 
